@@ -95,6 +95,11 @@ def run_pinned(chk):
         n = chk.rng.choice([15, 25])
         streams_invalid.append(F.invalid_program(chk.rng, n))
         made += n
+    # low-rate special programs (systematic in the thorough enumeration): dense SCE batch patterns, devices, anisotropic conv
+    for _ in range(2 if quick else 6):
+        streams_valid.append(F.sce_program(chk.rng))
+        streams_invalid.append(F.device_program(chk.rng))
+        streams_valid.append(F.conv_program(chk.rng))
     enum = [] if quick else F.enum_programs(chk.tier)
     found, dis = F.run_programs(chk, streams_valid + streams_invalid + enum, variant="asan")
     # the other build setting: a sample in quick, everything in thorough
